@@ -59,7 +59,7 @@ CHECKS = {
          '8 cells x 7 patterns x poses x placements x 4 history variants x 1-2 copies, structures carry symmetric-consistent bonds/angles/dihedrals inside and across matches; identity replacement leaves atom sequence and term tuple sets unchanged; A->B->A restores the (element, position mod lattice) multiset; after A->B a search for A finds nothing; uio66 / uio66-triclinic / hkust-1 identity and Zr->Hf->Zr.',
          'Default replace mode (replace_all=False). Real-file patterns are used bare (their own bonds would rightly be added).', '3/C08'),
  'C06': ('E3 state graph', 'explicit-state breadth-first search over histories of replacements with a reference structure; every state also checked through the written LAMMPS file',
-         '12 initial typed 6-atom chains (orthorhombic / tilted cell x full tables and all term kinds / nothing / terms without tables / CIF workflow / tables without terms / extra columns) x 11 pattern pairs (incl. atoms listed in reverse, same element displaced by 0.03 A) and partial replacements selecting both matches in either sample order; (terms on retained / inserted / mixed atoms, forwards and reversed, element swap, parameterised self-replacement, single-atom, 4-atom with dihedral+improper, empty) x replace_all, depth 2 (quick) / 3 (thorough); plus docs Example 3 on uio66.cif (metal centre then linker). Resolved view = RefStructure.replace on every transition; independent LAMMPS reader agrees.',
+         '12 initial typed 6-atom chains (orthorhombic / tilted cell x full tables and all term kinds / nothing / terms without tables / CIF workflow / tables without terms / extra columns) x 12 pattern pairs (incl. atoms listed in reverse, same element displaced by 0.03 A) and partial replacements selecting both matches in either sample order; (terms on retained / inserted / mixed atoms, forwards and reversed, element swap, parameterised self-replacement, single-atom, 4-atom with dihedral+improper, empty) x replace_all, depth 2 (quick) / 3 (thorough); plus docs Example 3 on uio66.cif (metal centre then linker). Resolved view = RefStructure.replace on every transition; independent LAMMPS reader agrees.',
          'Histories with overlapping matches are disabled (C07). Known finding K01 (pair table of the CIF workflow) is reported as KNOWN-FINDING; all other aspects of those states are still checked.', '3/C06'),
  'C09': ('E3 state graph', 'explicit-state breadth-first search over operation histories of real Atoms objects with a reference model; invariants I1-I5 in every state; start-from-elsewhere differential',
          '6 initial states x first operation from the full menu (every identity map / deletion subset on small states), breadth-first to depth 3 (quick) / 4 (thorough) over extend, extend-twice-with-offsets, delete, pop, replicate, copy, subset, replace, save+load; cap 8 atoms; states deduplicated by complete observable content; each new state re-derived by replaying its history from the initial state.',
@@ -116,6 +116,19 @@ HIST = {
  'C20': 'The command line is invoked thousands of times in one process with changing inputs and options and compared with the API driver each time, so state kept between invocations shows as a difference.',
 }
 
+W6 = {
+ 'C01': 'Further menu entries: a triclinic cell whose tilt factors are all negative with 1-3 copies in every layout; multi-copy layouts stored in reversed / interleaved atom order; C-H / B-F pairs searched in CH4 / BF3 stars (matches that share their first atom) in three atom orders.',
+ 'C02': 'Further menu entries: the all-negative-tilt cell, reordered multi-copy layouts and star cases of C01, judged by the reference matcher.',
+ 'C04': 'Further menu entries: replacement patterns that carry a cell of their own (orthorhombic, triclinic); axis-aligned copies with noise at atol 0.05 and 0.2.',
+ 'C05': 'Further menu entries: replacement patterns that carry a cell of their own (inserted atoms must be wrapped into the structure\'s cell).',
+ 'C06': 'A 12th pattern pair lists the inserted atom before the kept ones, with bonds and an angle on the inserted atom.',
+ 'C07': 'Every structure carries a bond between the two bystander atoms stored after the matched atoms; it must survive on the same atoms.',
+ 'C12': 'The replica\'s extra labels and field-table widths are compared with the original\'s for every kind (also kinds without terms).',
+ 'C13': 'Label menu includes a scheme with one empty label.',
+ 'C16': 'Bond lists that repeat an atom pair (one bond per bond entry); coordinates of 3e-9 ... 1e-30.',
+ 'C17': 'In every narrow cell, pairs placed along each face normal: the first atom 0.3 ... 1.1 cutoffs below the face, the second 0.02 A beyond it, both atom orders.',
+}
+
 NOT_YET = {}
 
 
@@ -128,6 +141,7 @@ def main():
             eng, tech, text, note, ref = CHECKS[pid]
             text = text + ' ' + SCALE[pid] if pid in SCALE else text
             text = text + ' ' + HIST[pid] if pid in HIST else text
+            text = text + ' ' + W6[pid] if pid in W6 else text
             checks.append(dict(property_id=pid, quick_cmd='./check %s quick' % pid, thorough_cmd='./check %s thorough' % pid,
                                evidence_file='/verif/evidence/%s.json' % pid, replay_cmd_template='./check %s --replay {path}' % pid,
                                engine=eng, technique=tech,
